@@ -34,8 +34,8 @@ func (c *Ctx) GenerateAll(jobs []*GenJob, keepParser bool) {
 		if j.Text == "" && j.G != nil {
 			j.Text = j.G.Render(nil)
 		}
-		if j.G != nil && j.Ext == "" && i%3 == 1 {
-			// the output directory is not always empty when gocc is run: every third grammar finds
+		if j.G != nil && j.Ext == "" && (i%5 == 1 || i%5 == 3) {
+			// the output directory is not always empty when gocc is run: two grammars in five find
 			// there the output of an earlier generation of a sibling grammar - same names, token
 			// declarations and alternatives in another order, so the files have the same names and
 			// mostly the same sizes but other numbers
